@@ -108,7 +108,7 @@ def generate(seed, tier="quick"):
     r = sub_rng(seed, "c16.scenario")
     if r.random() < 0.2:
         return generate_nd(r, seed)
-    return {"world_seed": seed, "driver": r.choice(list(DRIVERS)), "coef": r.choice(["const", "diag", "diag", "libor", "libor", "libormodel", "libormodel"]),
+    sc = {"world_seed": seed, "driver": r.choice(list(DRIVERS)), "coef": r.choice(["const", "diag", "diag", "libor", "libor", "libormodel", "libormodel"]),
             "m": r.choice([2, 3]), "tenor_fracs": sorted(r.sample([0.15, 0.3, 0.45, 0.6, 0.75, 0.9, 1.2, 1.5], 4)),
             "c": r.choice([1.0, 0.5, -2.0]), "x0": r.choice([1.0, 0.03, 100.0]), "h": r.choice([0.1, 0.05, 0.2]),
             "maturity": r.choice([0.25, 1.0]), "engine": r.choice(["standard", "mlmc", "mlmc"]),
@@ -116,6 +116,13 @@ def generate(seed, tier="quick"):
             # the multilevel run through the (simulated) worker pool: every path is simulated by a pickled copy of the level's
             # process and shipped back
             "nproc": r.choice([1, 1, 2, 3])}
+    rw = sub_rng(seed, "c16.whole_tenors")
+    if sc["coef"] in ("libor", "libormodel") and rw.random() < 0.15:
+        # fixing dates ON points of the simulation's own time grid (a finite-activity driver is simulated with a maximum
+        # step of one year; whole-year tenors inside a 2.5-year horizon): an Euler step then STARTS on a fixing date, where
+        # the coefficient already has the fixed rate's row at zero (own stream: the other draws are unchanged)
+        sc.update(whole_tenors=True, driver="hem", maturity=2.5, m=2)
+    return sc
 
 
 def shrink_candidates(sc):
@@ -184,6 +191,8 @@ def _euler(x0, coef, c, mu, times, dW, dL, tenors=None, sde_drift=None):
         else:
             sig = SIGMA[:len(x)].copy()
             sig[np.asarray(tenors[:-1]) <= times[i]] = 0.0  # a rate stops moving once it has fixed
+            if rngseam.ACTIVE is not None and np.any(np.asarray(tenors[:-1]) == times[i]):
+                rngseam.ACTIVE.probes["c16.euler_step_starts_on_a_fixing_date"] += 1
             a = sig * x
         dr = 0.0
         if sde_drift is not None:
@@ -232,6 +241,8 @@ def execute(wd, sc):
 
             m = sc["m"]
             tenors = np.array(sc["tenor_fracs"][:m + 1]) * T
+            if sc.get("whole_tenors"):
+                tenors = np.array([1.0, 2.0, 3.0])
             if coef == "libormodel":
                 tenors[-1] = max(tenors[-1], 1.25 * T)  # the model discounts up to its last tenor only
             x0 = X0_LIBOR[:m].copy()
